@@ -203,6 +203,13 @@ def build_shared_features_map(mod: fx.GraphModule,
     #   it is summed with the output of a layer, or it feeds a depthwise convolution), since a
     #   single masker cannot be the concatenation of other maskers. In this case also the
     #   concatenated tensors are fixed.
+    # - likewise, the tensors concatenated into a network output (or input-connected tensor),
+    #   whose features are frozen
+    def io_connected(c):
+        return (any(n in get_graph_inputs(mod.graph) for n in c) or
+                any(n in get_graph_outputs(mod.graph) for n in c) or
+                any(n.meta.get('output_connected', False) for n in c))
+
     fixed_nodes = set()
     layers = (nn.Conv1d, nn.Conv2d, nn.Linear)
     for n in mod.graph.nodes:
@@ -214,8 +221,8 @@ def build_shared_features_map(mod: fx.GraphModule,
         updated = False
         for c in components:
             concat_nodes = [n for n in c if n.meta['features_concatenate']]
-            if any(n in fixed_nodes for n in c) or (
-                    concat_nodes and any(is_inherited_layer(n, mod, layers) for n in c)):
+            if any(n in fixed_nodes for n in c) or (concat_nodes and (
+                    io_connected(c) or any(is_inherited_layer(n, mod, layers) for n in c))):
                 for n in concat_nodes:
                     new_nodes = set([n] + n.all_input_nodes) - fixed_nodes
                     updated = updated or len(new_nodes) > 0
@@ -240,11 +247,7 @@ def build_shared_features_map(mod: fx.GraphModule,
             if n.meta['features_defining'] or n.meta['untouchable'] and sm is None:
                 # distinguish the case in which the number of features must "frozen"
                 # i.e. the case of input-connected or output-connected components,
-                if (
-                    any(n in get_graph_inputs(mod.graph) for n in c) or
-                    any(n in get_graph_outputs(mod.graph) for n in c) or
-                    any(n.meta.get('output_connected', False) for n in c)
-                ):
+                if io_connected(c):
                     sm = PITFrozenFeaturesMasker(n.meta['tensor_meta'].shape[1])
                 else:
                     sm = PITFeaturesMasker(n.meta['tensor_meta'].shape[1])
